@@ -10,34 +10,37 @@ from fractions import Fraction
 from harness.common import *
 import vlib
 
-LEVEL_TEXT = ('Lean 4 theorems: Noll j -> (n, m) is valid (|m| <= n, n-|m| even, even j <-> cosine/+, odd j <-> sine/-) and a bijection '
+LEVEL_TEXT = ('Tie: the coefficient formula / guard / term count / exponents of R, the decision tree and leaf products of zernike, the pieces of '
+              'zernike_index (row-search argument, k, r, sign, seeds, loop, append step), the default origin of zernike_coordinates and helper.mesh are '
+              're-translated from the source on every run (Gen/ZernikeR, Gen/Mesh); the model and the driver are built from them. '
+              'Lean 4 theorems: Noll j -> (n, m) is valid (|m| <= n, n-|m| even, even j <-> cosine/+, odd j <-> sine/-) and a bijection '
               'onto the valid (n, m) (explicit inverse, both round trips, all j >= 1); the literal list-and-negative-index code of '
               'zernike_index equals the closed form for every j >= 1 and its row search is the Noll row in exact real arithmetic; '
-              'R_n^m(1) = 1 for all n <= 40; the model\'s mode over R is N * R_n^|m|(rho) * A_m(theta) with N^2 = n+1 or 2(n+1) and '
+              'R_n^m(1) = 1 for all n <= 40 and the regenerated coefficient is exact and equals the textbook binomial form (n <= 40; R_n^n = rho^n, R_2^0 = 2rho^2-1); the model\'s mode over R is N * R_n^|m|(rho) * A_m(theta) with N^2 = n+1 or 2(n+1) and '
               'A_m = 1 / cos(m theta) / sin(m theta); the exact rational Gram table equals the radial integrals of the model\'s '
               'polynomials (n, n\' <= 20); angular integrals over a period; and hence ORTHONORMALITY of the model\'s modes: the polar '
-              'mean (1/pi) int int Z_j Z_j\' rho drho dtheta is 1 if j = j\' else 0 for all pairs among the first 231 modes; the default '
+              'mean (1/pi) int int Z_j Z_j\' rho drho dtheta — and, by the polar change of variables, the area mean over the unit disk — is 1 if j = j\' else 0 for all pairs among the first 231 modes; the default '
               'origin is the mask centroid (first moments vanish) for any parity/position; rho = 1 at a farthest masked sample and '
               '<= 1 on the mask; values vanish outside the mask (field arithmetic) and depend on the mask only through its support. '
-              'PARTIAL: |Z| <= 1 without normalisation is not proved; orthonormality stops at n = 20 and is stated for the iterated polar '
-              'integral (the polar change of variables to the area mean is not formalised).')
+              'PARTIAL: |Z| <= 1 without normalisation is not proved; orthonormality is for n <= 20 in the quick tier (n <= 40 in the thorough tier).')
 LEVEL_NOTE = ('Trusted: Lean kernel, float sqrt/cos/sin/atan2 (model run at Float, tolerance 1e-9 x coefficient scale), NumPy semantics of '
               'np.angle/np.abs/np.max as modelled, generator coverage. Known finding KF-C11-nan-outside-mask: the code multiplies by the mask, so '
               'non-finite coordinates outside the mask (or a one-sample mask) give NaN instead of 0. Unproven clauses: |Z| <= 1 unnormalised '
-              '(sampled by the oracle); orthonormality beyond n = 20; the float sqrt/ceil row search of zernike_index beyond the sampled range of j.')
-TECHNIQUE = 'Lean 4 proof (omega/induction, decide +kernel exact rational tables) + hand model with differential correspondence'
-GEN = []
+              '(sampled by the oracle); orthonormality for 20 < n <= 40 only in the thorough tier; the float sqrt/ceil row search of zernike_index beyond the sampled range of j.')
+TECHNIQUE = 'Lean 4 proof (omega/induction, Mathlib integrals, decide +kernel exact tables) over translator-regenerated formulas + hand model with differential correspondence'
+GEN = ['ZernikeR', 'Mesh']
 OPS = ['C11']
 RULE = ('cases: every Noll index 1..861 (all 41 rows n <= 40) against zernike_index; every valid (n, m) with n <= 40 for the radial '
         'coefficients (exact rational evaluation at dyadic nodes); modes j <= 231 (some to 861) on dyadic (rho, theta) nodes with both '
-        'normalisations and non-boolean masks; Gauss-Legendre x uniform-angle quadrature of products of modes j, j\' <= 66 (orthonormality '
-        'of the real functions); zernike_coordinates on random masks (even/odd sizes, off-centre blobs, weights, explicit shift/rotate); '
+        'normalisations and non-boolean masks; Gauss-Legendre x uniform-angle quadrature of products of modes j, j\' <= 231 (orthonormality '
+        'of the real functions); zernike_coordinates on random masks (even/odd sizes, off-centre blobs, weights incl. values <= 1e-8, explicit shift/rotate), '
+        'one-sample and empty masks, non-finite caller coordinates outside the mask; Noll indices at 2^31, 2^32, 1e10 and row boundaries; '
+        'refusals (index < 1, rho without theta); '
         'distinct = canonical (kind, parameters) signature; non-trivial = n >= 2 / mask not symmetric about the array centre')
 TRUSTED = ['libm sqrt/cos/sin/atan2 agree with NumPy to 1e-9', 'np.angle = atan2(imag, real), np.abs = hypot, np.max over r*mask as modelled in Model/Zernike.lean']
-UNPROVEN = ['|Z_j| <= 1 on the unit disk without normalisation (needs |R_n^m| <= 1 on [0,1]); sampled by the oracle on dyadic nodes and by quadrature',
-            'orthonormality for 20 < n <= 40 (the exact radial table for n <= 40 checks in Lean but takes ~5 min; not part of the registered build)',
-            'that the iterated polar integral (1/pi) int_0^2pi int_0^1 f rho drho dtheta is the area mean over the unit disk (polar change of variables) — '
-            'the oracle integrates products of the real modes j, j\' <= 231 by exact Gauss-Legendre x uniform-angle quadrature in the same polar form']
+UNPROVEN = ['|Z_j| <= 1 on the unit disk without normalisation: reduced by raw_mode_le_radial to |R_n^m| <= 1 on [0,1], which is not proved; sampled by the oracle on dyadic nodes and by quadrature',
+            'orthonormality for 20 < n <= 40 is proved (zernike_orthonormal_40) but built and audited only by the THOROUGH tier (the exact integer '
+            'Gram table takes ~5 min); the quick tier carries n <= 20']
 ASSUMPTIONS = ['caller-supplied rho/theta are ndarrays (lists raise AttributeError in R for j > 1: input validation, not judged)',
                'the quantifier "all Noll indices up to a large bound" is carried for all j >= 1 on the index map and for n <= 40 (j <= 861) on the '
                'radial tables; beyond n = 40 the float evaluation of R cancels catastrophically',
@@ -97,8 +100,12 @@ def generate(rng, tier):
     if tier == 'thorough':
         for _ in range(40):
             out.append({'kind': 'index_list', 'js': sorted(int(x) for x in rng.integers(20001, 1000001, 50))})
-    if tier in ('search', 'thorough'):
-        # extremes: indices near 2^31, 2^32 and 10^10 (float row search), row boundaries n(n+1)/2 and n(n+1)/2 + 1
+    if tier == 'thorough':
+        # the 5-minute exact Gram table for n <= 40 and the orthonormality theorems for all 861 modes: built and audited here only
+        out.append({'kind': 'lean_thorough', 'module': 'LentilVerif.Props.C11Thorough',
+                    'theorems': ['Lentil.C11.gramUpTo_40', 'Lentil.C11.zernike_orthonormal_40', 'Lentil.C11.zernike_orthonormal_area_40']})
+    if True:
+        # extremes (every tier, 13 calls): indices near 2^31, 2^32 and 10^10 (float row search), row boundaries n(n+1)/2 and n(n+1)/2 + 1
         big = [2 ** 31 - 1, 2 ** 31, 2 ** 32 + 1, 10 ** 9, 10 ** 10 + 7]
         for n in (1000, 46340, 65535, 92681):
             big += [n * (n + 1) // 2, n * (n + 1) // 2 + 1]
@@ -152,6 +159,9 @@ def generate(rng, tier):
         for sh in ((257, 64), (90, 301)):                       # large arrays, off-centre weighted masks
             m = _mask(rng, sh)
             out.append({'kind': 'coords', 'shape': list(sh), 'mask': [float(x) for x in m.ravel()], 'shift': None, 'rotate': 0.0})
+    out.append({'kind': 'coords', 'shape': [4, 5], 'mask': [0.0] * 20, 'shift': None, 'rotate': 0.0, 'j': 4, 'normalize': True, 'one_sample': True, 'empty': True})
+    out.append({'kind': 'refusal', 'what': 'index0'}); out.append({'kind': 'refusal', 'what': 'index-negative'})
+    out.append({'kind': 'refusal', 'what': 'rho-without-theta'})
     for k in range({'quick': 3, 'thorough': 20, 'search': 3}[tier]):
         sh = (int(rng.integers(3, 8)), int(rng.integers(3, 8)))
         m = np.zeros(sh); m[int(rng.integers(0, sh[0])), int(rng.integers(0, sh[1]))] = 1.0
@@ -161,6 +171,8 @@ def generate(rng, tier):
 
 def signature(c):
     k = c['kind']
+    if k == 'lean_thorough': return 'lean_thorough ' + c['module']
+    if k == 'refusal': return 'refusal ' + c['what']
     if k == 'index': return f"index {c['j0']}..{c['j1']}"
     if k == 'index_list': return f"index_list {c['js'][:3]}"
     if k == 'radial': return f"radial {c['n']} {c['m']} /{c['den']}"
@@ -170,7 +182,7 @@ def signature(c):
 
 def nontrivial(c):
     k = c['kind']
-    if k in ('index', 'index_list'): return True
+    if k in ('index', 'index_list', 'lean_thorough', 'refusal'): return True
     if k == 'radial': return c['n'] >= 2
     if k == 'zern': return c['j'] >= 4
     if k == 'gram': return max(c['j'], c['j2']) >= 4
@@ -178,6 +190,8 @@ def nontrivial(c):
 
 def tags(c):
     k = c['kind']; t = [k]
+    if k == 'lean_thorough': return t + ['thorough-tier Lean module: orthonormality n<=40']
+    if k == 'refusal': return t + ['refusal:' + c['what']]
     if k == 'zern':
         t += ['zern:normalized' if c['normalize'] else 'zern:raw', 'zern:n<=20' if c['j'] <= 231 else 'zern:n>20']
         if c.get('bad_outside'): t.append('zern:non-finite-coordinates-outside-mask')
@@ -210,7 +224,30 @@ def impl(c):
     with np.errstate(all='ignore'):
         return _impl(c)
 
+def _lean_thorough(c):
+    b = vlib.lake_build([c['module']], timeout=2400)
+    if not b['ok']: return {'ok': False, 'why': 'lake build failed: ' + '; '.join(f"{e['file']}:{e['line']}: {e['msg']}" for e in b['errors'][:3]) + b['log'][-300:]}
+    ax, log = vlib.print_axioms('C11T', c['module'], c['theorems'])
+    bad = [n for n in c['theorems'] if n not in ax or not set(ax[n]) <= vlib.STD_AXIOMS]
+    hits = vlib.forbidden_tokens([p for m, p in vlib.lean_deps(c['module']).items() if m.startswith('LentilVerif')])
+    return {'ok': not bad and not hits, 'why': f'axiom audit failed for {bad}: {ax}; forbidden tokens {hits}' if (bad or hits) else '',
+            'axioms': {n: ax.get(n) for n in c['theorems']}, 'build_s': b['wall_s']}
+
+def _refusal(c):
+    vlib.import_lentil()
+    import lentil, sys
+    Z = sys.modules['lentil.zernike']
+    try:
+        if c['what'] == 'index0': Z.zernike_index(0)
+        elif c['what'] == 'index-negative': Z.zernike_index(-3)
+        else: lentil.zernike(np.ones((3, 3)), 4, rho=np.ones((3, 3)) / 2)
+        return {'raised': None}
+    except Exception as e:
+        return {'raised': type(e).__name__}
+
 def _impl(c):
+    if c['kind'] == 'lean_thorough': return _lean_thorough(c)
+    if c['kind'] == 'refusal': return _refusal(c)
     vlib.import_lentil()
     import lentil, sys
     Z = sys.modules['lentil.zernike']      # `lentil.zernike` the attribute is the function; the module lives in sys.modules
@@ -260,6 +297,7 @@ def _impl(c):
 
 def requests(c, io):
     k = c['kind']
+    if k in ('lean_thorough', 'refusal'): return []
     if k == 'index': return [{'op': 'noll', 'j0': c['j0'], 'j1': c['j1']}]
     if k == 'index_list': return [{'op': 'noll_list', 'js': c['js']}]
     if k == 'radial':
@@ -294,7 +332,7 @@ def _zscale(j, normalize, rho):
 
 def compare(c, io, mo):
     k = c['kind']
-    if k == 'gram': return None
+    if k in ('gram', 'lean_thorough', 'refusal'): return None
     m = mo[0]
     if 'exc' in io: return f"implementation raised {io['exc']}: {io.get('msg')}"
     if not m.get('ok'): return f"model refused: {m.get('err')}"
@@ -347,6 +385,10 @@ def compare(c, io, mo):
 # ------------------------------------------------------------------------------------------ oracle (real code only)
 def oracle(c, io):
     k = c['kind']
+    if k == 'refusal':
+        return None if io.get('raised') == 'ValueError' else f"{c['what']}: expected ValueError (no Noll index < 1; rho needs theta), got {io.get('raised')}"
+    if k == 'lean_thorough':
+        return None if io.get('ok') else f"thorough-tier theorems {c['theorems']} (radial Gram table and orthonormality for n <= 40) no longer check: {io.get('why')}"
     if 'exc' in io: return f"{k}: implementation raised {io['exc']}: {io.get('msg')}"
     if k in ('index', 'index_list'):
         js = list(range(c['j0'], c['j1'] + 1)) if k == 'index' else c['js']
@@ -396,6 +438,9 @@ def oracle(c, io):
     # coords
     sh = tuple(c['shape']); mask = np.array(c['mask']).reshape(sh) != 0
     rho = np.array(io['rho']).reshape(sh); th = np.array(io['theta']).reshape(sh)
+    if mask.sum() == 0:
+        z = np.array(io.get('z', [0.0])); bad = not np.all(z == 0)
+        return 'empty mask (one-sample mask class): everything is outside the mask, the modes must be zero — got NaN (centroid 0/0)' if bad or not np.all(np.isfinite(rho)) else None
     if mask.sum() == 1 and c['shift'] is None:
         # the farthest masked sample is the origin itself: rho cannot be 1 there; the property still demands zeros outside the mask
         if 'z' in io:
